@@ -46,7 +46,7 @@ P = {
  "C19": ("exploration", "E-text", "same inputs, token/comment-sequence comparator", "", ""),
  "C20": ("model_checking", "E-bfs", "explicit enumeration of package graphs, every transition through the real lock writer/reader", "", ""),
  "C21": ("exploration", "E-text", "bounded-exhaustive malformed source strings / dependency lines through the real loader", "", ""),
- "C22": ("model_checking", "E-bfs", "explicit enumeration of all digraphs on <= 4 (5) nodes through the real compilation_order", "", ""),
+ "C22": ("model_checking", "E-bfs", "explicit enumeration of all digraphs on <= 4 (thorough: 5) nodes, thorough also all labelled DAGs on 6 nodes each with every cycle-closing back edge, through the real compilation_order", "", ""),
  "C23": ("model_checking", "E-bfs", "explicit-state BFS over edit histories, every transition through the real document code vs UTF-16 client model",
    "BFS over all documents of <= 3 symbols over {a, e-acute, astral, LF, CRLF} and ALL edits (full replacement by each document; incremental edits at every UTF-16 position pair incl. past line end, past last line, start > end, inside a surrogate pair, 5 insert texts), histories <= 3 (thorough 5), states deduplicated by (client text, server text); every transition calls the real Documents::update_text_document and is compared with a Vec<u16> reference client.",
    "Oracle decisions are quoted from LSP 3.17; where the spec is silent both readings are accepted."),
